@@ -83,6 +83,14 @@ def gen_cases(rng, tier):
         qs = gen_queries(rng, feats)
         for o in orders:
             c = {"feats": [feats[j] for j in o], "qs": qs, "text": rng.random() < 0.6}
+            if c["text"] and rng.random() < 0.3:
+                # a file that opens with a dozen lines written in the one-key-per-value style (Dbxref=a;Dbxref=b): they decide
+                # the file's dialect; the comma lists further down (Parent=m1,m2) are still lists
+                lead = [imp.mkfeat(seqid="chrR", type_="region", s=10 * k + 1, e=10 * k + 5,
+                                   attrs=[["ID", ["lead%d" % k]], ["Dbxref", ["db:%d" % k, "x:%d" % k]]]) for k in range(12)]
+                for k, f in enumerate(lead):
+                    f["rawcol"] = "ID=lead%d;Dbxref=db:%d;Dbxref=x:%d" % (k, k, k)
+                c["feats"] = lead + c["feats"]
             if len(feats) >= 2 and rng.random() < 0.3:
                 # the same lines in two batches: create_db, then FeatureDB.update from a lazy source that itself queries the
                 # database (the db.update(db.create_introns()) idiom); relatives are asked for before and after
